@@ -144,6 +144,13 @@ pub fn run_instance(sched: &Value, ea: &Entry, eb: &Entry, ca: i64, cb: i64, see
             _ => {}
         }
     }
+    // epilogue: after the whole history, every object is sampled once more from the run's first RNG state on a scratch
+    // handle (r = 0): "regardless of how many samples were drawn before from that or any other distribution object"
+    // - the memo then compares these with the pristine references and with each other
+    for o in 0..3usize {
+        let mut scratch = seed_rng(seed, 1);
+        sample_ev(&objs, o, &mut scratch, 0, &mut sid, &mut oid, out);
+    }
     true
 }
 
